@@ -26,7 +26,7 @@ RULE = ("programs = the C01 core matrix (kind x position x required x nullable x
         "the repository's own [tool.mypy] settings, in batches; (2) executed: every attribute of every object decoded from RM-inst "
         "instances and every parsed response must conform to its annotation (structural conformance checker); (3) every value of a "
         "bounded enumeration of each annotation's inhabitants must be accepted by to_dict / the request builder; non-trivial = a "
-        "program that was generated and judged")
+        "program that was generated and judged; builtin-like class names under both enum styles; C02's defaulted-property documents (required-with-default before / after a required property without one)")
 FLOOR = 0.5
 CASE_LIMIT = 900
 ASSUMPTIONS = ["mypy (the version installed in /venv) is the external judge of oracle 1; settings are read from /repo/pyproject.toml at run time minus the pydantic plugin",
